@@ -306,6 +306,38 @@ fn check_value<'p>(p: &mut Program<'p>, t: &JT, rep: &mut Report, queue: &mut Ve
     }
 }
 
+/// An integer literal outside the 64-bit range in a TOML document (TOML 1.0: such a value
+/// cannot be represented losslessly and the parser must report an error).
+fn toml_integer_beyond_i64(text: &str) -> Option<String> {
+    let mut in_str = false;
+    let mut esc = false;
+    let mut tok = String::new();
+    let mut out = None;
+    let mut flush_tok = |tok: &mut String, out: &mut Option<String>| {
+        let t = tok.trim_start_matches(['+', '-']);
+        if !t.is_empty() && t.bytes().all(|b| b.is_ascii_digit()) && tok.parse::<i64>().is_err() && out.is_none() {
+            *out = Some(tok.clone());
+        }
+        tok.clear();
+    };
+    for c in text.chars() {
+        if in_str {
+            if esc { esc = false; } else if c == '\\' { esc = true; } else if c == '"' { in_str = false; }
+            continue;
+        }
+        if c == '"' {
+            flush_tok(&mut tok, &mut out);
+            in_str = true;
+        } else if c.is_ascii_alphanumeric() || matches!(c, '+' | '-' | '.' | '_') {
+            tok.push(c);
+        } else {
+            flush_tok(&mut tok, &mut out);
+        }
+    }
+    flush_tok(&mut tok, &mut out);
+    out
+}
+
 fn flush(queue: &mut Vec<Pending>, rep: &mut Report) {
     if queue.is_empty() {
         return;
@@ -317,6 +349,11 @@ fn flush(queue: &mut Vec<Pending>, rep: &mut Report) {
         rep.transitions += 1;
         let case = json!({"type":"emit","emitter":q.what,"source":q.src});
         let lang = match q.op { "pyliteral" => "python", "toml" => "toml", _ => "yaml" };
+        if lang == "toml" {
+            if let Some(lit) = toml_integer_beyond_i64(&q.text) {
+                rep.violation("C05/toml/integer-literal-beyond-64-bits", format!("{} emits the integer literal {lit}: TOML integers are 64-bit, a conforming parser must reject the document", util::truncate(&q.src, 200)), case.clone());
+            }
+        }
         match a.get("v").and_then(from_oracle) {
             Some(got) if eq_numeric(&got, &q.expect) => rep.outcome(&format!("{lang}-roundtrip-ok")),
             Some(got) => rep.violation(if q.what.contains("(no document)") { "C05/yaml/empty-stream-decodes-to-one-null-document".to_string() } else { format!("C05/{lang}/decodes-to-different-value") }, format!("{} emits {:?} which its language's parser decodes to {}, expected {}", q.src, util::truncate(&q.text, 300), util::truncate(&got.show(), 200), util::truncate(&q.expect.show(), 200)), case),
